@@ -1,6 +1,7 @@
 import Driver.Lapper
 import Driver.Rec
 import Driver.Lapper2
+import Driver.Coverage
 /-!
 `bvdriver FILE` (or stdin): one case per line, answers one verdict line per case.
 -/
@@ -20,6 +21,8 @@ def handle (line : String) : String :=
       | "C18" => handleC18 inp obs
       | "C19" => handleC19 inp obs
       | "C20" => handleC20 inp obs
+      | "C05" => handleC05 inp obs
+      | "C06" => handleC06 inp obs
       | "C13" => handleC13 inp obs
       | "C14" => handleC14 inp obs
       | "C07" => handleC07 inp obs
